@@ -95,6 +95,14 @@ def ops_full(doc):
         ops.append(("sort", pi))
         if not _doc.occ(par, "N"):
             ops.append(("set", pi, "N", "n"))
+        # to be refused, leaving the document as it was
+        k0 = keys[0] if keys else "A"
+        ops.append(("before", pi, k0, "Zz-absent"))
+        ops.append(("after", pi, k0, "Zz-absent"))
+        ops.append(("first", pi, "Zz-absent"))
+        ops.append(("before", pi, "Zz-absent", k0))
+        ops.append(("del", pi, "Zz-absent"))
+        ops.append(("after", pi, k0, k0))
     for i in range(len(ps) + 1):
         ops.append(("insert", i, NEWPARS[0]))
     ops.append(("insert", 0, NEWPARS[1]))
